@@ -16,6 +16,7 @@ from vf import pyvc
 from vf.pyvc import Executor, Rec, SArr, Key, Builtin, prove, zint, zreal
 
 SRC = ["/repo/jinns/data/_DataGenerators.py", "/repo/jinns/solver/_rar.py", "/repo/jinns/data/_Batchs.py"]
+LOSS_SRC = ["/repo/jinns/loss/_LossODE.py", "/repo/jinns/loss/_LossPDE.py"]        # class declarations only (which attributes exist)
 DG, RAR = "jinns.data._DataGenerators:", "jinns.solver._rar:"
 META = dict(
     trusted_base=[
@@ -80,14 +81,15 @@ def gen(kind, dim=2):
 def loss_of(kind, system=False):
     if system:
         cls = "SystemLossODE" if kind == "ODE" else "SystemLossPDE"
+        # a system loss has a dictionary of networks and no single network `u`
         return Rec(cls, dict(u_dict={"u": Rec("PINN", {}), "v": Rec("PINN", {})},
-                             dynamic_loss_dict={"e1": Rec("DynamicLoss", {}), "e2": Rec("DynamicLoss", {})}, u=Rec("PINN", {})))
+                             dynamic_loss_dict={"e1": Rec("DynamicLoss", {}), "e2": Rec("DynamicLoss", {})}))
     cls = {"ODE": "LossODE", "statio": "LossPDEStatio", "nonstatio": "LossPDENonStatio"}[kind]
     return Rec(cls, dict(u=Rec("PINN", {}), dynamic_loss=Rec("DynamicLoss", {})))
 
 
 def executor():
-    ex = Executor(SRC, lib=LIBX)
+    ex = Executor(SRC + LOSS_SRC, lib=LIBX)
     ex.contracts["DynamicLoss.evaluate"] = None
     del ex.contracts["DynamicLoss.evaluate"]
     return ex
@@ -164,11 +166,13 @@ def ob_init_rar(kind):
                  ("steps_unchanged", zint(d2.fields["rar_iter_nb"]) == J),
                  ("closures_returned", z3.BoolVal(f_true is not None and f_false is not None))]
         return result(name, goals, pre, ex, t0)
-    return FnObligation(name, run, [RAR + "init_rar", RAR + "_rar_step_init"])
+    return FnObligation(name, run, [RAR + "init_rar", RAR + "_rar_step_init"],
+                        native_fallback=lambda: _native_rar_two_trainings() or native_rar_monitor({}))
 
 
-def ob_proceed(kind):
-    name = f"C16/_proceed_to_rar/ensures.fires_iff[{kind}]"
+def ob_proceed(kind, zero=None):
+    """zero: 't' | 'x' — a non-stationary generator that refines only one of its two stores (the other selected size is 0)"""
+    name = f"C16/_proceed_to_rar/ensures.fires_iff[{kind}{'' if zero is None else ',selected_' + ('times' if zero == 't' else 'omega') + '=0'}]"
     def run(seed):
         t0 = time.time()
         ex = executor()
@@ -183,6 +187,9 @@ def ob_proceed(kind):
             cap.append(selx <= n - (n0 + J * selx))
         spec = z3.And(it >= start, c == every - 1, *cap)
         pre = BASE_PRE + list(o.pc)
+        if zero is not None:
+            z_ = selt if zero == "t" else selx
+            pre = [p_ for p_ in pre if not (z3.is_ge(p_) and p_.arg(0).eq(z_))] + [z_ == 0]
         return result(name, [("fires_iff", fires == spec)], pre, ex, t0, extra_axioms=counting_lemma(ex, kind),
                       canary=fires == z3.And(it > start, c == every - 1, *cap))
     return FnObligation(name, run, [RAR + "_proceed_to_rar"])
@@ -545,9 +552,87 @@ def _native_rar_statio_vector():
     return None
 
 
+def _native_rar_two_trainings():
+    """two refinements in the same process on generators of the same layout but different RAR sizes: each one follows
+    its own configuration"""
+    import numpy as np, jax, warnings
+    import jax.numpy as jnp
+    import equinox as eqx
+    from jinns.solver._rar import init_rar, trigger_rar
+    from jinns.data._DataGenerators import DataGeneratorODE
+    from jinns.loss import LossODE, ODE
+    from jinns.parameters import Params
+
+    class Dyn(ODE):
+        def equation(self, t, u, params):
+            return jnp.sin(7.0 * t) * jnp.ones((1,))
+
+    class U(eqx.Module):
+        def __call__(self, t, params):
+            return jnp.zeros((1,))
+    with warnings.catch_warnings():
+        warnings.simplefilter("ignore")
+        loss = LossODE(u=U(), dynamic_loss=Dyn(), params=Params(nn_params=None, eq_params={}))
+    for (S_, sel) in ((6, 3), (5, 1), (6, 2)):
+        rp = {"start_iter": 0, "update_every": 1, "sample_size_times": S_, "selected_sample_size_times": sel}
+        g = DataGeneratorODE(jax.random.PRNGKey(0), 20, 0.0, 1.0, 2, "uniform", rp, 4)
+        g, ft, ff = init_rar(g)
+        for i in range(3):
+            _, _, g = trigger_rar(i, loss, Params(nn_params=None, eq_params={}), g, ft, ff)
+        act = int((np.asarray(g.p_times) != 0).sum())
+        if act != 4 + 3 * sel:
+            return [f"training with selected_sample_size_times={sel} (after an earlier training with another size in the same process): "
+                    f"{act} active times after 3 steps, expected {4 + 3 * sel}"]
+    return None
+
+
+def _native_rar_resume():
+    """a second training started on an already refined generator (init_rar again): nothing that was active is lost"""
+    import numpy as np, jax, warnings
+    import jax.numpy as jnp
+    import equinox as eqx
+    from jinns.solver._rar import init_rar, trigger_rar
+    from jinns.data._DataGenerators import DataGeneratorODE
+    from jinns.loss import LossODE, ODE
+    from jinns.parameters import Params
+
+    class Dyn(ODE):
+        def equation(self, t, u, params):
+            return jnp.sin(7.0 * t) * jnp.ones((1,))
+
+    class U(eqx.Module):
+        def __call__(self, t, params):
+            return jnp.zeros((1,))
+    with warnings.catch_warnings():
+        warnings.simplefilter("ignore")
+        loss = LossODE(u=U(), dynamic_loss=Dyn(), params=Params(nn_params=None, eq_params={}))
+    rp = {"start_iter": 0, "update_every": 1, "sample_size_times": 6, "selected_sample_size_times": 2}
+    g = DataGeneratorODE(jax.random.PRNGKey(0), 20, 0.0, 1.0, 2, "uniform", rp, 4)
+    p0 = Params(nn_params=None, eq_params={})
+    g, ft, ff = init_rar(g)
+    for i in range(3):
+        _, _, g = trigger_rar(i, loss, p0, g, ft, ff)
+    act1, t1 = int((np.asarray(g.p_times) != 0).sum()), np.asarray(g.times).copy()
+    g, ft, ff = init_rar(g)            # a new training on the returned generator
+    for i in range(2):
+        _, _, g = trigger_rar(i, loss, p0, g, ft, ff)
+    act2, t2 = int((np.asarray(g.p_times) != 0).sum()), np.asarray(g.times)
+    if not np.array_equal(t2[:act1], t1[:act1]) or act2 != act1 + 4:
+        lost = int((t2[:act1] != t1[:act1]).sum())
+        return [f"second training on a refined generator (init_rar called again after 3 steps): {lost} previously active point(s) overwritten, "
+                f"{act2} active afterwards (expected {act1 + 4})"]
+    return None
+
+
 def native_rar_monitor(vals):
     try:
         m = _native_rar_ode(vals)
+        if m:
+            return m
+    except Exception:
+        pass
+    try:
+        m = _native_rar_resume()
         if m:
             return m
     except Exception:
@@ -587,7 +672,8 @@ def _native_rar_nonstatio(vals):
     u = PINN(mlp=M(jnp.ones(3)), slice_solution=jnp.s_[0:1], eq_type="nonstatio_PDE", input_transform=lambda i, p: i, output_transform=lambda i, o, p: o)
     msgs = []
     for (st_, ev, n0_, nt0_, selt_, selx_, ntot, nttot, St_, Sx_) in [(1, 2, 4, 6, 2, 3, 13, 30, 5, 6), (0, 1, 5, 3, 3, 2, 30, 10, 4, 9), (2, 1, 3, 4, 2, 7, 40, 20, 3, 8),
-                                                                      (0, 1, 12, 3, 2, 3, 30, 20, 4, 5)]:
+                                                                      (0, 1, 12, 3, 2, 3, 30, 20, 4, 5),
+                                                                      (0, 1, 4, 5, 0, 3, 22, 30, 4, 6), (0, 1, 6, 5, 3, 0, 22, 30, 4, 6)]:
         rp = {"start_iter": st_, "update_every": ev, "sample_size_times": St_, "selected_sample_size_times": selt_,
               "sample_size_omega": Sx_, "selected_sample_size_omega": selx_}
         g = CubicMeshPDENonStatio(key=jax.random.PRNGKey(1), n=ntot, nb=None, nt=nttot, omega_batch_size=2, omega_border_batch_size=None,
@@ -695,6 +781,7 @@ def obligations(tier, only=None):
         obs += [ob_init_rar(kind), ob_proceed(kind), ob_step_false(kind), ob_trigger(kind)]
         for cl in C16_CLAUSES:
             obs.append(ob_step_true(kind, cl))
+    obs += [ob_proceed("nonstatio", zero="t"), ob_proceed("nonstatio", zero="x")]
     for l in SCHED_LEMMAS:
         obs.append(ob_sched_lemma(l))
     obs.append(ob_no_rar())
@@ -711,7 +798,7 @@ def ob_step_true_system(kind):
         try:
             ex, data, d2, pc, mt, mx = run_step_true(kind, system=True)
         except pyvc.PyRaise as e:
-            nat = native_system_statio() if kind == "statio" else None
+            nat = native_system_statio() if kind == "statio" else (_safe_native(native_system_nonstatio_ranking) if kind == "nonstatio" else None)
             return dict(status="violated", failure="raises", backend="pyvc",
                         detail=f"rar_step_true raises {e.exc_name} with a system loss on a {kind} generator: {e.msg}",
                         replay=dict(native_disagrees=bool(nat), native=nat or "not replayed natively",
@@ -719,14 +806,111 @@ def ob_step_true_system(kind):
         T, X = kind in ("ODE", "nonstatio"), kind in ("statio", "nonstatio")
         pre = BASE_PRE + list(pc) + [k_ >= 0] + ([mt + selt <= nt] if T else []) + ([mx + selx <= n] if X else [])
         goals = [("steps_incremented", zint(d2.fields["rar_iter_nb"]) == J + 1)]
+        # ranking: the squared residual of a candidate for a system is the sum over the equations of the squared residuals
+        res = getattr(ex, "residuals", [])
+        t = z3.Int("t")
+        ax = []
+        if kind in ("ODE", "statio"):
+            srt = getattr(ex, "sorts", [])
+            if len(srt) == 1 and len(res) == 2:
+                S_ = St if kind == "ODE" else Sx
+                goals.append(("ranked_by_sum_over_equations_of_squared_residuals", z3.Implies(
+                    z3.And(t >= 0, t < S_), zreal(srt[0][1].elem(t)) == sum((rf(t) * rf(t) for rf, _ in res), z3.RealVal(0)))))
+            else:
+                goals.append(("one_ranking_over_all_equations", z3.BoolVal(False)))
+        else:
+            tk = getattr(ex, "topks", [])
+            if len(tk) == 1 and len(res) == 2:
+                goals.append(("ranked_by_sum_over_equations_of_squared_residuals", z3.Implies(
+                    z3.And(t >= 0, t < St * Sx), zreal(tk[0][1].elem(t)) == sum((rf(t) * rf(t) for rf, _ in res), z3.RealVal(0)))))
+            else:
+                goals.append(("one_ranking_over_all_equations", z3.BoolVal(False)))
         if T:
             goals += [("time_active", z3.Implies(k_ < nt, (zreal(d2.fields["p_times"].elem(k_)) != 0) == (k_ < mt + selt))),
                       ("time_kept", z3.Implies(k_ < mt, d2.fields["times"].elem(k_) == data.fields["times"].elem(k_)))]
         if X:
             goals += [("space_active", z3.Implies(k_ < n, (zreal(d2.fields["p_omega"].elem(k_)) != 0) == (k_ < mx + selx))),
                       ("space_kept", z3.Implies(k_ < mx, d2.fields["omega"].elem(k_, 0) == data.fields["omega"].elem(k_, 0)))]
-        return result(name, goals, pre, ex, t0)
+        out = result(name, goals, pre, ex, t0, extra_axioms=ax)
+        if out.get("status") == "violated" and kind == "nonstatio" and not (out.get("replay") or {}).get("native_disagrees"):
+            nat = _safe_native(native_system_nonstatio_ranking)
+            if nat:
+                out["replay"].update(native_disagrees=True, native=nat)
+        return out
     return FnObligation(name, run, [RAR + "_rar_step_init.rar_step_true"])
+
+
+def _safe_native(f):
+    try:
+        return f()
+    except Exception as e:
+        import traceback
+        tb = traceback.extract_tb(e.__traceback__)
+        if any(fr.filename.startswith("/repo/") for fr in tb):
+            return [f"the real refinement step raises {type(e).__name__}: {str(e)[:200]}"]
+        return None
+
+
+def native_system_nonstatio_ranking():
+    """non-stationary refinement with a two-equation system whose residuals nearly cancel: the activated time / space
+    slots must come from the (time, space) pairs with the largest sum over the equations of the squared residuals"""
+    import numpy as np, jax, warnings
+    import jax.numpy as jnp
+    import equinox as eqx
+    from jinns.solver._rar import init_rar, trigger_rar
+    from jinns.data._DataGenerators import CubicMeshPDENonStatio
+    from jinns.loss import SystemLossPDE, PDENonStatio, LossWeightsPDEDict
+    from jinns.parameters import ParamsDict
+    from jinns.utils._pinn import PINN
+
+    def f_(t, x):
+        return jnp.sin(5.0 * t[0]) * (0.5 + x[0]) + 2.0 * x[1]
+
+    class E1(PDENonStatio):
+        def equation(self, t, x, u_dict, params_dict):
+            return jnp.reshape(f_(t, x), (1,))
+
+    class E2(PDENonStatio):
+        def equation(self, t, x, u_dict, params_dict):
+            return jnp.reshape(-f_(t, x) + 0.3 * jnp.cos(7.0 * x[0] + t[0]), (1,))
+
+    class M(eqx.Module):
+        w: jax.Array
+        def __call__(self, x):
+            return jnp.sum(self.w * x)[None]
+    u = PINN(mlp=M(jnp.ones(3)), slice_solution=jnp.s_[0:1], eq_type="nonstatio_PDE", input_transform=lambda i, p: i, output_transform=lambda i, o, p: o)
+    pd = ParamsDict(nn_params={"u": u.params}, eq_params={})
+    with warnings.catch_warnings():
+        warnings.simplefilter("ignore")
+        loss = SystemLossPDE(u_dict={"u": u}, dynamic_loss_dict={"e1": E1(), "e2": E2()}, loss_weights=LossWeightsPDEDict(), params_dict=pd)
+    St_, Sx_, selt_, selx_ = 5, 6, 2, 2
+    rp = {"start_iter": 0, "update_every": 1, "sample_size_times": St_, "selected_sample_size_times": selt_,
+          "sample_size_omega": Sx_, "selected_sample_size_omega": selx_}
+    g = CubicMeshPDENonStatio(key=jax.random.PRNGKey(7), n=20, nb=None, nt=20, omega_batch_size=2, omega_border_batch_size=None,
+                              temporal_batch_size=2, dim=2, min_pts=(0.0, 0.0), max_pts=(1.0, 1.0), tmin=0.0, tmax=1.0,
+                              rar_parameters=rp, n_start=4, nt_start=4)
+    g, ft, ff = init_rar(g)
+    for step in range(2):
+        nk, sk = jax.random.split(g.key)
+        ts = np.asarray(g.sample_in_time_domain(sk, St_)).reshape(-1)
+        nk, *sks = jax.random.split(nk, 3)
+        xs = np.asarray(g.sample_in_omega_domain(sks, Sx_))
+        sq = np.array([[float(E1().equation(jnp.array([t_]), jnp.asarray(x_), None, None)[0]) ** 2 +
+                        float(E2().equation(jnp.array([t_]), jnp.asarray(x_), None, None)[0]) ** 2 for x_ in xs] for t_ in ts])
+        order = np.argsort(-sq.reshape(-1))[:max(selt_, selx_)]
+        exp_t = ts[(order // Sx_)[:selt_]]
+        exp_x = xs[(order % Sx_)[:selx_]]
+        mt, mx = 4 + step * selt_, 4 + step * selx_
+        _, _, g2 = trigger_rar(step, loss, pd, g, ft, ff)
+        new_t, new_x = np.asarray(g2.times)[mt:mt + selt_], np.asarray(g2.omega)[mx:mx + selx_]
+        if not all(np.any(np.isclose(v, ts)) for v in new_t):
+            return None          # candidates could not be re-drawn: no statement
+        if not (np.allclose(np.sort(new_t), np.sort(exp_t)) and np.allclose(np.sort(new_x, axis=0), np.sort(exp_x, axis=0))):
+            return [f"non-stationary step {step} with a 2-equation system: activated times {np.round(new_t, 4).tolist()} / points "
+                    f"{np.round(new_x, 4).tolist()}; the pairs with the largest sum of squared residuals give times "
+                    f"{np.round(exp_t, 4).tolist()} / points {np.round(exp_x, 4).tolist()}"]
+        g = g2
+    return None
 
 
 def native_system_statio():
@@ -810,6 +994,11 @@ def c17_obligations(tier):
         for o in (ob_proceed(kind), ob_trigger(kind)):
             o.name = o.name.replace("C16/", "C17/requires.capacity_for_a_full_set/")
             obs.append(o)
+        # "active points remain active" across trainings: starting a new run (init_rar) keeps the step counter that the
+        # write offsets n_start + J * selected are computed from
+        o = ob_init_rar(kind)
+        o.name = o.name.replace("C16/", "C17/requires.write_offset_state_kept_by/")
+        obs.append(o)
     # the reshuffle of a RAR store is drawn with the store's probability vector (C09 step contract, restated)
     from contracts import c09
     for which in ("DataGeneratorODE.temporal_batch", "CubicMeshPDENonStatio.temporal_batch", "CubicMeshPDEStatio.inside_batch[dim=1]"):
